@@ -578,6 +578,10 @@ func get(ctx *cli.Context) (*Config, error) {
 			AWSSharedCredentialsFile: ctx.String("s3.aws_shared_credentials_file"),
 			MaxIdleConns:             ctx.Int("s3.max_idle_conns"),
 		}
+		if ctx.IsSet("s3.key_version") {
+			keyVersion := ctx.Int("s3.key_version")
+			s3.KeyVersion = &keyVersion
+		}
 	}
 
 	var hc *URLBackendConfig
